@@ -209,6 +209,98 @@ pub fn worker_main(args: &[String], work: &dyn Fn(&str, &str, u8, u64, usize) ->
 }
 
 // ---------------------------------------------------------------------------------------------
+// Sanitizer lane: the same worker binary under valgrind memcheck on a sample of the family
+// ---------------------------------------------------------------------------------------------
+
+pub struct MemcheckReport {
+    pub programs: usize,
+    pub completed: usize,
+    pub errors: usize,
+    pub processes: usize,
+    pub died: usize,
+    pub first_error: String,
+    pub log_dir: String,
+    pub wall_s: f64,
+    pub violations_in_sample: usize,
+}
+
+/// Runs `count` programs (every `step`-th job index) of a family under `valgrind --tool=memcheck`.
+/// Leak checking is off: `generator` deliberately does not unwind suspended coroutines of a
+/// panicking model, and the harness keeps address-remembering monitors.
+pub fn run_memcheck(family: &str, prop: &str, tier: u8, seed: u64, total: usize, count: usize) -> Option<MemcheckReport> {
+    if std::env::var("LV_NO_MEMCHECK").is_ok() || Command::new("valgrind").arg("--version").output().is_err() {
+        return None;
+    }
+    let t0 = Instant::now();
+    let count = count.min(total).max(1);
+    let step = (total / count).max(1);
+    let nproc = jobs().min(count);
+    let exe = std::env::current_exe().expect("current_exe");
+    let dir = verif_root().join("work").join(format!("memcheck-{}-{}", prop, family));
+    let _ = std::fs::remove_dir_all(&dir);
+    let _ = std::fs::create_dir_all(&dir);
+    let mut children = Vec::new();
+    for w in 0..nproc {
+        let log = dir.join(format!("vg-{}.log", w));
+        let out = std::fs::File::create(dir.join(format!("out-{}.txt", w))).ok()?;
+        let child = Command::new("valgrind")
+            .args(["--tool=memcheck", "--leak-check=no", "--error-exitcode=0", "--num-callers=25", "--error-limit=no", "-q"])
+            .arg(format!("--log-file={}", log.display()))
+            .arg(&exe)
+            .args(["worker", family, prop, &tier.to_string(), &seed.to_string(), &(w * step).to_string(), &(nproc * step).to_string(), &(count * step).min(total).to_string()])
+            .env("LV_UNDER_VALGRIND", "1")
+            .stdin(Stdio::null())
+            .stdout(Stdio::from(out))
+            .stderr(Stdio::null())
+            .spawn()
+            .ok()?;
+        children.push(child);
+    }
+    let mut died = 0;
+    for mut c in children {
+        match c.wait() {
+            Ok(s) if s.success() => {}
+            _ => died += 1,
+        }
+    }
+    let mut rep = MemcheckReport { programs: count, completed: 0, errors: 0, processes: nproc, died, first_error: String::new(), log_dir: dir.display().to_string(), wall_s: 0.0, violations_in_sample: 0 };
+    for w in 0..nproc {
+        if let Ok(s) = std::fs::read_to_string(dir.join(format!("out-{}.txt", w))) {
+            for l in s.lines() {
+                if let Some(r) = l.strip_prefix("R ") {
+                    rep.completed += 1;
+                    if let Ok(rec) = serde_json::from_str::<Rec>(r) {
+                        rep.violations_in_sample += (!rec.viol.is_empty()) as usize;
+                    }
+                }
+            }
+        }
+        if let Ok(s) = std::fs::read_to_string(dir.join(format!("vg-{}.log", w))) {
+            // with -q only errors are written; each report block starts with "==pid== <Kind>" after a blank "==pid== " line
+            let mut blocks = 0;
+            let mut prev_blank = true;
+            for l in s.lines() {
+                let body = l.splitn(3, "==").nth(2).unwrap_or("").trim();
+                if body.is_empty() {
+                    prev_blank = true;
+                    continue;
+                }
+                if prev_blank && !body.starts_with("at ") && !body.starts_with("by ") && !body.starts_with("Warning") && !body.contains("client switching stacks") && !body.starts_with("to suppress") && !body.starts_with("further instances") {
+                    blocks += 1;
+                    if rep.first_error.is_empty() {
+                        rep.first_error = s.lines().skip_while(|x| *x != l).take(12).collect::<Vec<_>>().join("\n");
+                    }
+                }
+                prev_blank = false;
+            }
+            rep.errors += blocks;
+        }
+    }
+    rep.wall_s = t0.elapsed().as_secs_f64();
+    Some(rep)
+}
+
+// ---------------------------------------------------------------------------------------------
 // Known findings
 // ---------------------------------------------------------------------------------------------
 
